@@ -72,6 +72,47 @@ class C20(Prop):
         g.append(Ground("C20/bytes-roundtrip-all-256", all(enc.utf8_to_vyxal(enc.vyxal_to_utf8([b])) == chr(b) for b in range(256)), ""))
         bad = [(a, b) for a in range(256) for b in (0, 94, 95, 96, 255) if enc.utf8_to_vyxal(enc.vyxal_to_utf8([a, b])) != chr(a) + chr(b)]
         g.append(Ground("C20/bytes-roundtrip-pairs", not bad, str(bad[:3]), witness=dict(bytes=list(bad[0])) if bad else None))
+        # a program stored in the code page's bytes reaches the transpiler as exactly the text those bytes denote:
+        # execute_vyxal(file, flag v) with `transpile` replaced by a recorder, on one file holding every byte pair
+        import contextlib
+        import io
+        import os
+        import tempfile
+        import vyxal.main as vm
+
+        every_pair = bytes(x for a in range(256) for b in range(256) for x in (a, b))
+        seen = []
+        real_transpile = vm.transpile
+        vm.transpile = lambda code, *a, **k: (seen.append(code), "pass\n")[1]
+        try:
+            with tempfile.NamedTemporaryFile(delete=False) as f:
+                f.write(every_pair)
+            with contextlib.redirect_stdout(io.StringIO()):
+                vm.execute_vyxal(f.name, "vO", [])
+        except BaseException as e:  # noqa
+            seen.append(f"raised {type(e).__name__}: {e}")
+        finally:
+            vm.transpile = real_transpile
+            os.unlink(f.name)
+        want = "".join(cp[b] for b in every_pair)
+        got = seen[0] if seen else None
+        i = next((j for j in range(min(len(got), len(want))) if got[j] != want[j]), min(len(got), len(want))) if isinstance(got, str) else 0
+        g.append(Ground("C20/byte-file-reaches-the-transpiler-as-its-text", got == want, "" if got == want else f"first difference at character {i}: bytes {list(every_pair[max(0, i - 1):i + 3])}", witness=dict(bytes=list(every_pair[max(0, i - 1):i + 3])) if got != want else None))
+        # transpiling programs never changes the element / modifier tables (a later program must see the same table)
+        from vyxal.transpile import transpile
+
+        before = (dict(el.elements), dict(el.modifiers))
+        for prog in ["3 vœ", "⟨1|2⟩ vÞQ", "3 4 ₌+k", "1[ÞQ|5]", "λœ;", "3 &∆", "ƛk;", "@f|œ;", "⁽ÞQ", "1 2 ‡œÞQ", "≬kkk", "(œ)", "{ÞQ|1}", "⟨œ|k⟩", "v¨", "ß∆"]:
+            try:
+                transpile(prog)
+            except Exception:  # noqa
+                pass
+        after = (dict(el.elements), dict(el.modifiers))
+        changed = sorted({k for t in (0, 1) for k in set(before[t]) ^ set(after[t])} | {k for t in (0, 1) for k in before[t] if k in after[t] and before[t][k] != after[t][k]})
+        for t, name in ((0, "elements"), (1, "modifiers")):  # undo, so that the rest of this run sees the real table
+            getattr(el, name).clear()
+            getattr(el, name).update(before[t])
+        g.append(Ground("C20/tables-not-changed-by-transpiling", not changed, f"keys added / removed / changed: {changed}", witness=dict(keys=changed) if changed else None))
         mod, _ = W.module_ast("vyxal/elements.py")
         for tab in ("elements", "modifiers"):
             keys = dict_display_keys(mod, tab)
